@@ -28,6 +28,8 @@ claimed={
         'No execution of the false-alarm space may contain a DesyncDetected event; every divergence must be reported by both peers before the session passes a computed deadline frame, naming a frame after the divergence and the two checksums the games really saved.'),
  'C10':(D,'6 C10','grid: moment of death x every split of the dying peer last packets between the survivor links x windows/delays/saving/timeouts (3-4 peers), slow survivor links, k<=2 deviations on the survivors link; pairwise comparison of final timelines and state hashes',
         'Survivors must not panic and must end with identical inputs/statuses for the dropped player and identical states on every frame both confirmed. Two known findings (unequal receipt panics), keyed by the receipt split and panic message.'),
+ 'C11':(M,'6 C11','exhaustive enumeration of all sequences of up to 2 (quick) / 3 (thorough) set_input_delay calls x values 0..=6 x local player x round of a window (same-round calls included), windows at the start and across the 128-slot ring wrap, one/two local players, spectator, three peers, stalled caller, k<=1/2 packet deviations; reference model of the delay semantics replayed over the calls actually made',
+        'The owner final timeline must equal the reference model (gapless, fills repeat, drops drop), every remote peer and spectator must equal the owner on every confirmed frame, nobody freezes, nothing stays stranded in the outgoing buffer, no call panics.'),
  'C12':(M,'6 C12','stateful exploration (visited set) of every fate of every handshake packet, k<=2/3 fault enumeration at three poll cadences, forged replies at every round, silence-length grids, poll-only cadence grids, undrained queues; oracles: per-address event grammar automaton, round trips matched by the simulated network, timer reference model',
         'The event stream of every explored execution must be accepted by the grammar automaton; Running must coincide, call by call, with 5 network-matched round trips per remote; interruption/resume/disconnect rounds must equal the timer model; the undrained queue must stay <= 100.'),
  'C13':(M,'6 C13','grid enumeration of all builder configurations x input programs, and every (frame, simulation index) placement of a nondeterministic step; reference model of the expected verdict',
